@@ -1,5 +1,10 @@
 #!/venv/bin/python
 import json, glob, sys
+seen = {}
 for f in sorted(glob.glob(f'/verif/replays/{sys.argv[1]}/*.json')):
     r = json.load(open(f))
-    print('==', f.split('/')[-1], r['sub'], r['kind']); print('   case:', json.dumps(r['case'])[:1500]); print('   msg:', r['message'][:400].replace('\n', ' '))
+    k = (r['sub'], r['kind'])
+    if k not in seen or len(json.dumps(r['case'])) < len(json.dumps(seen[k][1]['case'])):
+        seen[k] = (f, r)
+for (sub, kind), (f, r) in seen.items():
+    print('==', f.split('/')[-1], sub, kind); print('   case:', json.dumps(r['case'])[:1500]); print('   msg:', r['message'][:400].replace('\n', ' '))
